@@ -111,7 +111,8 @@ class LibMixin:
                 # the grown copy keeps the old contents in [off, off+len); its spare capacity is unspecified
                 spare = self.fresh("grow@spare", z3.ArraySort(IS, srt))
                 p = z3.BitVec("p", IDX_BITS)
-                self.facts.append(z3.ForAll([p], z3.Implies(z3.And(p >= v.off, p < v.off + v.ln), z3.Select(spare, p) == z3.Select(old, p))))
+                zero = FALSE if srt == z3.BoolSort() else z3.BitVecVal(0, srt.size())
+                self.facts.append(z3.ForAll([p], z3.Select(spare, p) == z3.If(z3.And(p >= v.off, p < v.off + v.ln), z3.Select(old, p), zero)))
                 st.mem[key] = z3.Store(m, F, spare)
             st.ghost["alloc"] = st.ghost.get("alloc", z3.BitVecVal(0, 64)) + z3.If(inplace, idx(0), newcap * idx(self.elem_size(v.elem)))
             return SliceV(z3.If(inplace, v.rid, F), v.off, v.ln, z3.If(inplace, v.cap, newcap), v.elem)
